@@ -451,6 +451,9 @@ Lemma with_ob_with_ob m o1 ops1 o2 ops2 :
   with_ob (with_ob m o1 ops1) o2 ops2 = with_ob m o2 (ops1 ++ ops2).
 Proof. unfold with_ob. cbn. rewrite app_assoc. reflexivity. Qed.
 
+Lemma ob_with_ob m o' ops : ob (with_ob m o' ops) = o'.
+Proof. reflexivity. Qed.
+
 Lemma pair_okk (P : objs * list kop) : (let '(o', ks) := P in okk o' ks) = okk (fst P) (snd P).
 Proof. destruct P; reflexivity. Qed.
 
@@ -565,3 +568,332 @@ Proof.
   mstep. mstep. unfold Finally. mstep. mstep. mstep. mdone.
   f_equal. rewrite !with_ob_with_ob. unfold with_ob. cbn. reflexivity.
 Qed.
+
+Lemma unsubscribe_plain_pres o n a w :
+  nk (get_notif o n) = NPlain ->
+  (let '(o', ks) := unsubscribe_pair o n a w in okk o' ks)
+  = okk (fst (plain_unsubscribe o n a w)) (snd (plain_unsubscribe o n a w)).
+Proof. intros P. unfold unsubscribe_pair. rewrite P. apply pair_okk. Qed.
+
+(** ** the sleeping waiter is resumed by its own wake-up: the program continues after [__aenter__], the
+    object state is [sec_wake] *)
+Theorem lock_wait_woken k cur m l n a w c st outer :
+  lnotif (ob m) l = n -> nk (get_notif (ob m) n) = NPlain ->
+  exec (13 + k) cur m (MThrow (ESig w)) {| c_aid := c; c_stack := lock_wait_frames l n a w ++ st |} outer
+  = exec k cur (with_ob m (sec_wake (ob m) l a w) (snd (plain_unsubscribe (ob m) n a w)))
+         (MRet VU) {| c_aid := c; c_stack := st |} outer.
+Proof.
+  intros En P. unfold lock_wait_frames, sec_wake. rewrite En. cbn [Nat.add app].
+  mstep. cbn [is_sig]. rewrite Nat.eqb_refl.
+  mstep. mstep. mstep. mstep.
+  unfold unsubscribe, Do.
+  erewrite exec_step; [| apply step1_prim; apply unsubscribe_plain_pres; exact P ].
+  mstep. mstep. mstep. mstep. mstep.
+  pstep ltac:(cbn; reflexivity). mstep.
+  f_equal. rewrite with_ob_with_ob, app_nil_r. unfold with_ob. f_equal.
+Qed.
+
+(** ** anything else is thrown into the sleeping waiter (a foreign interrupt, CancelTask, GeneratorExit of a
+    close): the exception continues to propagate above [__aenter__], the object state is [sec_foreign] *)
+Definition foreign_ops (o : objs) (l : nat) (n : nid) (a : aid) (w : sid) : list kop :=
+  let o1 := app_ops o (plain_unsubscribe o n a w) in
+  snd (plain_unsubscribe o n a w) ++ (if owner_is o1 l a then snd (lock_release o1 l) else []).
+
+Theorem lock_wait_foreign k cur m l n a w e c st outer :
+  lnotif (ob m) l = n -> nk (get_notif (ob m) n) = NPlain -> is_sig e w = false ->
+  exec (16 + k) cur m (MThrow e) {| c_aid := c; c_stack := lock_wait_frames l n a w ++ st |} outer
+  = exec k cur (with_ob m (sec_foreign (ob m) l a w) (foreign_ops (ob m) l n a w))
+         (MThrow e) {| c_aid := c; c_stack := st |} outer.
+Proof.
+  intros En P He. unfold lock_wait_frames, sec_foreign, foreign_ops. rewrite En. cbn [Nat.add app].
+  mstep. rewrite He.
+  mstep. mstep. mstep.
+  unfold unsubscribe, Do.
+  erewrite exec_step; [| apply step1_prim; apply unsubscribe_plain_pres; exact P ].
+  mstep. mstep. mstep. mstep. mstep. mstep.
+  set (o1 := app_ops (ob m) (fst (plain_unsubscribe (ob m) n a w), snd (plain_unsubscribe (ob m) n a w))).
+  erewrite exec_step.
+  2:{ apply (step1_prim cur _ _ _
+               (if owner_is o1 l a then fst (lock_release o1 l) else o1)
+               (if owner_is o1 l a then snd (lock_release o1 l) else []) VU).
+      rewrite !ob_with_ob. destruct (owner_is o1 l a); [apply pair_okk | reflexivity]. }
+  mstep. mstep. mstep. mstep.
+  f_equal. rewrite with_ob_with_ob. unfold with_ob.
+  assert (E1 : o1 = app_ops (ob m) (plain_unsubscribe (ob m) n a w)).
+  { unfold o1. destruct (plain_unsubscribe (ob m) n a w); reflexivity. }
+  rewrite <- E1. destruct (owner_is o1 l a).
+  - destruct (lock_release o1 l); reflexivity.
+  - unfold app_ops at 1. cbn [fst snd kapply_all fold_left]. rewrite set_kern_same. reflexivity.
+Qed.
+
+(** * 6. transfer of the protocol invariants to machine object states *)
+
+(** a lock as the machine creates it ([alloc_lock]: scenario set-up and every [Queue()]) is related to the
+    protocol's initial state, whatever the ghost [wk] *)
+Lemma link_alloc_lock o wk : link (alloc_lock o) (length (locks o)) wk LP.init.
+Proof.
+  unfold link, alloc_lock, alloc_notif. cbn.
+  assert (G : get_lock (o <| notifs := notifs o ++ [{| nk := NPlain; Machine.waiting := []; trig := false |}] |>
+                          <| locks := locks o ++ [{| l_owner := None; l_depth := 0; l_notif := length (notifs o) |}] |>)
+                       (length (locks o))
+              = {| l_owner := None; l_depth := 0; l_notif := length (notifs o) |}).
+  { unfold get_lock. cbn. rewrite app_nth2 by lia. rewrite Nat.sub_diag. reflexivity. }
+  constructor; unfold lnotif; rewrite ?G; cbn; try (intros ? []); try constructor.
+  - rewrite app_length. cbn. lia.
+  - rewrite app_length. cbn. lia.
+  - unfold get_notif. cbn. rewrite app_nth2 by lia. rewrite Nat.sub_diag. reflexivity.
+  - unfold get_notif. cbn. rewrite app_nth2 by lia. rewrite Nat.sub_diag. reflexivity.
+Qed.
+
+(** The object states a lock goes through: it is created, then every change is one of the atomic sections
+    of section 4, executed under the discipline of the protocol (the ghost phase [LP.ph] records at which
+    suspension point of the lock code an activity is: a request is made by an activity that is not parked
+    in this lock; the wake-up is delivered to the designated waiter; something else may be thrown into any
+    waiter; only an activity inside the block leaves it), or it is a step of other code that satisfies the
+    frame condition of [link_frame].  [hist] is the protocol state that is carried along. *)
+Inductive linked (l : nat) : objs -> (aid -> sid) -> LP.st -> Prop :=
+| lk_init o wk : link o l wk LP.init -> linked l o wk LP.init
+| lk_request o wk s a s' :
+    linked l o wk s -> LP.ph s a <> LP.Waiting -> is_scheduled o (length (sigs o)) = false ->
+    LP.step s (LP.Request a) = Some s' -> linked l (sec_enter o l a) (wk_enter o l a wk) s'
+| lk_wake o wk s a s' :
+    linked l o wk s -> LP.ph s a = LP.Waiting -> In a (LP.woken s) ->
+    LP.step s (LP.DeliverWake a) = Some s' -> linked l (sec_wake o l a (wk a)) wk s'
+| lk_foreign o wk s a s' :
+    linked l o wk s -> LP.ph s a = LP.Waiting ->
+    LP.step s (LP.DeliverForeign a) = Some s' -> linked l (sec_foreign o l a (wk a)) wk s'
+| lk_exit o wk s a n s' :
+    linked l o wk s -> LP.ph s a = LP.Inside (S n) ->
+    LP.step s (LP.Exit a) = Some s' -> linked l (sec_exit o l) wk s'
+| lk_other o wk s o' :
+    linked l o wk s ->
+    length (locks o') = length (locks o) -> length (notifs o) <= length (notifs o') ->
+    length (sigs o) <= length (sigs o') ->
+    get_lock o' l = get_lock o l ->
+    get_notif o' (lnotif o l) = get_notif o (lnotif o l) ->
+    (forall a, In a (LP.woken s ++ LP.waiting s) -> is_scheduled o' (wk a) = is_scheduled o (wk a)) ->
+    linked l o' wk s.
+
+(** main theorem: along every such history the object state stays related to a REACHABLE protocol state.
+    (The protocol step in [lk_request] .. [lk_exit] is not an extra assumption: by [sim_request] ..
+    [sim_exit] it exists and is the one given; see [linked_progress].) *)
+Theorem linked_sound l o wk s : linked l o wk s -> link o l wk s /\ LP.reachable s.
+Proof.
+  induction 1 as [o wk K | o wk s a s' _ [K R] P F St | o wk s a s' _ [K R] P W St
+                 | o wk s a s' _ [K R] P St | o wk s a n s' _ [K R] P St
+                 | o wk s o' _ [K R] H1 H2 H3 H4 H5 H6].
+  - split; [exact K | constructor].
+  - split; [| econstructor; eauto].
+    destruct (sim_request o l wk s a K (LPP.reachable_inv _ R) P F) as (s2 & E & K2). congruence.
+  - split; [| econstructor; eauto].
+    destruct (sim_wake o l wk s a K (LPP.reachable_inv _ R) P W) as (s2 & E & K2). congruence.
+  - split; [| econstructor; eauto].
+    destruct (sim_foreign o l wk s a K (LPP.reachable_inv _ R) P) as (s2 & E & K2). congruence.
+  - split; [| econstructor; eauto].
+    destruct (sim_exit o l wk s a n K (LPP.reachable_inv _ R) P) as (s2 & E & K2). congruence.
+  - split; [| exact R]. eapply link_frame; eauto.
+Qed.
+
+(** the protocol step demanded by the constructors always exists (the enabled-conditions of the sections
+    are exactly the guards of [LP.step] on reachable states) *)
+Theorem linked_progress l o wk s a :
+  linked l o wk s ->
+  (LP.ph s a <> LP.Waiting -> LP.step s (LP.Request a) <> None) /\
+  (LP.ph s a = LP.Waiting -> In a (LP.woken s) -> LP.step s (LP.DeliverWake a) <> None) /\
+  (LP.ph s a = LP.Waiting -> LP.step s (LP.DeliverForeign a) <> None) /\
+  (forall n, LP.ph s a = LP.Inside (S n) -> LP.step s (LP.Exit a) <> None).
+Proof.
+  intros L. destruct (linked_sound _ _ _ _ L) as [K R]. pose proof (LPP.enabled_by_phase s a R) as E.
+  repeat split.
+  - intros P. destruct (LP.ph s a); [exact E|congruence|apply E].
+  - intros P W. cbn. rewrite P, (proj2 (LPP.mem_In _ _) W). discriminate.
+  - intros P. rewrite P in E. exact E.
+  - intros n P. rewrite P in E. apply E.
+Qed.
+
+Lemma NoDup_app_r {A} (l1 l2 : list A) : NoDup (l1 ++ l2) -> NoDup l2.
+Proof. induction l1 as [|x r IH]; cbn; auto. intros H. apply NoDup_cons_iff in H as [_ H]. auto. Qed.
+
+(** ** the C09 statements on machine object states *)
+Section Transfer.
+  Variables (o : objs) (l : nat) (wk : aid -> sid) (s : LP.st).
+  Hypothesis K : link o l wk s.
+  Hypothesis R : LP.reachable s.
+
+  (** free_iff_idle: the lock record says "free" exactly when no activity holds the lock, is designated
+      for it or waits for it *)
+  Theorem machine_free_iff_idle :
+    l_owner (get_lock o l) = None <-> forall a, LP.ph s a = LP.Idle.
+  Proof. rewrite (k_owner _ _ _ _ _ _ _ K). apply LPP.free_iff_idle. exact R. Qed.
+
+  (** [Lock.available] as the machine computes it is the protocol's, hence its specification *)
+  Lemma machine_available_eq a : lock_available o l a = LP.available s a.
+  Proof.
+    unfold lock_available, LP.available. rewrite (k_owner _ _ _ _ _ _ _ K).
+    destruct (LP.owner s); auto. apply Nat.eqb_sym.
+  Qed.
+
+  Theorem machine_available_spec a : LP.ph s a <> LP.Waiting ->
+    (lock_available o l a = true <-> (forall b, LP.ph s b = LP.Idle) \/ LPP.inside s a).
+  Proof. rewrite machine_available_eq. apply LPP.available_spec. exact R. Qed.
+
+  (** mutex + re-entrancy: whoever is inside is the recorded owner, alone, and the recorded depth is its
+      nesting depth *)
+  Theorem machine_mutex a b n m :
+    LP.ph s a = LP.Inside n -> LP.ph s b = LP.Inside m ->
+    a = b /\ l_owner (get_lock o l) = Some a /\ l_depth (get_lock o l) = Z.of_nat n /\ 1 <= n.
+  Proof.
+    intros Ha Hb. destruct (LPP.mutex s R a b n m Ha Hb) as [E O].
+    destruct (LPP.reentrant_depth s R a n Ha) as (_ & D & L).
+    rewrite (k_owner _ _ _ _ _ _ _ K), (k_depth _ _ _ _ _ _ _ K), D. auto.
+  Qed.
+
+  (** the waiting list of the lock's notification holds exactly the parked, not designated activities,
+      each once, each with its own wake-up, none of them scheduled *)
+  Theorem machine_waiting_list :
+    NoDup (map fst (Machine.waiting (get_notif o (lnotif o l)))) /\
+    NoDup (map snd (Machine.waiting (get_notif o (lnotif o l)))) /\
+    forall a w, In (a, w) (Machine.waiting (get_notif o (lnotif o l))) ->
+                LP.ph s a = LP.Waiting /\ w = wk a /\ is_scheduled o w = false /\
+                l_owner (get_lock o l) <> Some a /\ l_owner (get_lock o l) <> None.
+  Proof.
+    pose proof (LPP.reachable_inv _ R) as I. pose proof (LPP.iB _ I) as B. unfold LP.pendq in B.
+    rewrite (k_waiting _ _ _ _ _ _ _ K), map_fst_pairs. repeat split.
+    - apply NoDup_app_r in B. exact B.
+    - rewrite map_map. cbn. apply (k_inj _ _ _ _ _ _ _ K).
+    - apply in_map_iff in H as (b & E & Hb). injection E as <- <-.
+      apply (LPP.iA _ I). apply in_or_app. auto.
+    - apply in_map_iff in H as (b & E & Hb). injection E as <- <-. reflexivity.
+    - apply in_map_iff in H as (b & E & Hb). injection E as <- <-. apply (k_queued _ _ _ _ _ _ _ K). exact Hb.
+    - apply in_map_iff in H as (b & E & Hb). injection E as <- <-.
+      rewrite (k_owner _ _ _ _ _ _ _ K). intros O.
+      pose proof (LPP.iC _ I) as C. unfold LPP.inv_owner in C. rewrite O in C. destruct C as [_ C].
+      assert (P : LP.ph s b = LP.Waiting) by (apply (LPP.iA _ I); apply in_or_app; auto).
+      rewrite P in C. destruct C as [W _]. rewrite W in B. cbn in B. apply NoDup_cons_iff in B as [B _].
+      contradiction.
+    - apply in_map_iff in H as (b & E & Hb). injection E as <- <-.
+      rewrite (k_owner _ _ _ _ _ _ _ K). intros O.
+      pose proof (LPP.iC _ I) as C. unfold LPP.inv_owner in C. rewrite O in C.
+      destruct C as (_ & C & _). rewrite C in Hb. destruct Hb.
+  Qed.
+
+  (** ownership is never parked: a recorded owner is inside the block, or it is the designated waiter and
+      its wake-up is scheduled in the kernel (and not in the waiting list any more) *)
+  Theorem machine_owner_can_move a :
+    l_owner (get_lock o l) = Some a ->
+    (exists n, LP.ph s a = LP.Inside (S n) /\ l_depth (get_lock o l) = Z.of_nat (S n)) \/
+    (LP.ph s a = LP.Waiting /\ is_scheduled o (wk a) = true /\ l_depth (get_lock o l) = 0%Z /\
+     ~ In a (map fst (Machine.waiting (get_notif o (lnotif o l))))).
+  Proof.
+    rewrite (k_owner _ _ _ _ _ _ _ K). intros O.
+    destruct (LPP.owner_can_move s a R O) as [(n & P & _) | (P & W & _)].
+    - left. exists n. split; auto. rewrite (k_depth _ _ _ _ _ _ _ K).
+      destruct (LPP.reentrant_depth s R a _ P) as (_ & D & _). now rewrite D.
+    - right. pose proof (LPP.reachable_inv _ R) as I.
+      destruct (LPP.woken_shape s I a W) as (_ & _ & _ & Z).
+      repeat split; auto.
+      + apply (k_woken _ _ _ _ _ _ _ K). exact W.
+      + rewrite (k_depth _ _ _ _ _ _ _ K), Z. reflexivity.
+      + rewrite (k_waiting _ _ _ _ _ _ _ K), map_fst_pairs.
+        destruct (LPP.unsubscribe_safe s a R P) as [[_ N]|[_ N]]; [exact N | contradiction].
+  Qed.
+
+  (** [Notification.__unsubscribe__] of a parked activity always finds what it looks for: its wake-up is
+      scheduled (then it is revoked), or its pair is in the waiting list (then [list.remove] succeeds) *)
+  Theorem machine_unsubscribe_safe a : LP.ph s a = LP.Waiting ->
+    (is_scheduled o (wk a) = true /\ mem_pair a (wk a) (Machine.waiting (get_notif o (lnotif o l))) = false) \/
+    (is_scheduled o (wk a) = false /\ mem_pair a (wk a) (Machine.waiting (get_notif o (lnotif o l))) = true).
+  Proof.
+    intros P. rewrite (k_waiting _ _ _ _ _ _ _ K).
+    assert (M : forall L, mem_pair a (wk a) (map (fun b : aid => (b, wk b)) L) = LP.mem a L).
+    { unfold mem_pair, LP.mem. induction L as [|b r IH]; cbn; auto. rewrite IH. f_equal.
+      destruct (Nat.eqb_spec a b) as [<-|N]; cbn; auto. apply Nat.eqb_refl. }
+    rewrite M. destruct (LPP.unsubscribe_safe s a R P) as [[W N]|[W N]]; [left|right]; split.
+    - apply (k_woken _ _ _ _ _ _ _ K). exact W.
+    - apply LPP.mem_false. exact N.
+    - apply (k_queued _ _ _ _ _ _ _ K). exact W.
+    - apply LPP.mem_In. exact W.
+  Qed.
+End Transfer.
+
+(** the same for every object state of a lock history *)
+Corollary linked_free_iff_idle l o wk s :
+  linked l o wk s -> (l_owner (get_lock o l) = None <-> forall a, LP.ph s a = LP.Idle).
+Proof. intros L. destruct (linked_sound _ _ _ _ L) as [K R]. eapply machine_free_iff_idle; eauto. Qed.
+
+Corollary linked_available_spec l o wk s a :
+  linked l o wk s -> LP.ph s a <> LP.Waiting ->
+  (lock_available o l a = true <-> (forall b, LP.ph s b = LP.Idle) \/ LPP.inside s a).
+Proof. intros L. destruct (linked_sound _ _ _ _ L) as [K R]. eapply machine_available_spec; eauto. Qed.
+
+Corollary linked_mutex l o wk s a b n m :
+  linked l o wk s -> LP.ph s a = LP.Inside n -> LP.ph s b = LP.Inside m ->
+  a = b /\ l_owner (get_lock o l) = Some a /\ l_depth (get_lock o l) = Z.of_nat n /\ 1 <= n.
+Proof. intros L. destruct (linked_sound _ _ _ _ L) as [K R]. eapply machine_mutex; eauto. Qed.
+
+(** ** the hypotheses are satisfiable: a concrete history on a freshly allocated lock.
+    activity 0 enters, activity 1 requests (parks with wake-up 0), 0 leaves (hand-off: 1 designated, its
+    wake-up scheduled), 1 is resumed by its wake-up and is inside. *)
+Definition ex_base : objs :=
+  {| kern := loop_init 2 (Fin 0); sigs := []; astat := [AsNew; AsNew]; notifs := []; flags := [];
+     tracked := []; tasks := []; scopes := []; locks := []; queues := []; chans := []; ress := [];
+     tnames := []; snames := []; trace := []; serial := 0 |}.
+Definition ex_o0 : objs := alloc_lock ex_base.
+Definition ex_wk0 : aid -> sid := fun _ => 7.
+Definition ex_o1 := sec_enter ex_o0 0 0.
+Definition ex_o2 := sec_enter ex_o1 0 1.
+Definition ex_o3 := sec_exit ex_o2 0.
+Definition ex_o4 := sec_wake ex_o3 0 1 0.
+
+Example ex_history :
+  exists s, linked 0 ex_o4 (LP.upd ex_wk0 1 0) s /\
+            LP.project s = (2, 1, [], []) /\
+            proj_lock ex_o4 0 (LP.upd ex_wk0 1 0) [0; 1] = (2, 1, [], [1]) /\
+            proj_lock ex_o3 0 (LP.upd ex_wk0 1 0) [0; 1] = (2, 0, [], [1]) /\
+            proj_lock ex_o2 0 (LP.upd ex_wk0 1 0) [0; 1] = (1, 1, [1], []).
+Proof.
+  eexists. split; [| split; [| repeat split; vm_compute; reflexivity ]].
+  - unfold ex_o4.
+    change 0 with ((LP.upd ex_wk0 1 0) 1) at 4.
+    eapply lk_wake with (a := 1).
+    + unfold ex_o3. eapply lk_exit with (a := 0) (n := 0).
+      * unfold ex_o2. change (LP.upd ex_wk0 1 0) with (wk_enter ex_o1 0 1 ex_wk0).
+        eapply lk_request.
+        -- unfold ex_o1. change ex_wk0 with (wk_enter ex_o0 0 0 ex_wk0) at 1.
+           eapply lk_request.
+           ++ apply lk_init. exact (link_alloc_lock ex_base ex_wk0).
+           ++ cbn. discriminate.
+           ++ reflexivity.
+           ++ reflexivity.
+        -- cbn. discriminate.
+        -- reflexivity.
+        -- reflexivity.
+      * reflexivity.
+      * reflexivity.
+    + reflexivity.
+    + cbn. auto.
+    + reflexivity.
+  - reflexivity.
+Qed.
+
+Print Assumptions sim_request.
+Print Assumptions sim_wake.
+Print Assumptions sim_foreign.
+Print Assumptions sim_exit.
+Print Assumptions link_release.
+Print Assumptions link_unsubscribe.
+Print Assumptions lock_exit_runs.
+Print Assumptions lock_enter_free_runs.
+Print Assumptions lock_enter_again_runs.
+Print Assumptions lock_enter_wait_sleeps.
+Print Assumptions lock_wait_woken.
+Print Assumptions lock_wait_foreign.
+Print Assumptions linked_sound.
+Print Assumptions linked_progress.
+Print Assumptions machine_free_iff_idle.
+Print Assumptions machine_available_spec.
+Print Assumptions machine_mutex.
+Print Assumptions machine_waiting_list.
+Print Assumptions machine_owner_can_move.
+Print Assumptions machine_unsubscribe_safe.
+Print Assumptions ex_history.
